@@ -1,7 +1,7 @@
 SPECIFICATION Spec
 CONSTANTS
-  Ids = {"A", "B", "C"}
-  InitUp = {"A", "B"}
+  Ids = {"A", "B", "C", "D"}
+  InitUp = {"A", "B", "C"}
   Small = {}
   Big = {"b1", "b2"}
   Fanout = 3
